@@ -182,8 +182,8 @@ pub fn shard_size() -> BoxedStrategy<usize> {
         12 => (0usize..SIZES.len()).prop_map(|i| SIZES[i]),
         8 => (1usize..=165).prop_map(|h| h * 2),
         2 => (512usize..=2048).prop_map(|h| h * 2),
-        // several KiB up to 64 KiB, all residues mod 64
-        1 => (2049usize..=32768).prop_map(|h| h * 2),
+        // several KiB up to 192 KiB, all residues mod 64 (blocked kernels, size thresholds)
+        1 => (2049usize..=98304).prop_map(|h| h * 2),
     ]
     .boxed()
 }
@@ -347,7 +347,7 @@ pub struct RecvSpec {
     pub seed: u64,
 }
 
-pub const PATTERN_NAMES: [&str; 8] = [
+pub const PATTERN_NAMES: [&str; 10] = [
     "uniform",
     "recovery-first",
     "originals-first",
@@ -356,12 +356,14 @@ pub const PATTERN_NAMES: [&str; 8] = [
     "chunk",
     "head",
     "tail",
+    "compact+outliers",
+    "compact-high+outliers",
 ];
 
 pub fn recv_spec() -> BoxedStrategy<RecvSpec> {
     (
         prop_oneof![4 => Just(0u8), 1 => Just(1u8), 2 => Just(2u8), 1 => Just(3u8)],
-        0u8..8,
+        0u8..10,
         0u8..5,
         any::<u64>(),
     )
@@ -481,6 +483,56 @@ impl RecvSpec {
                     *f = true;
                 }
             }
+            // a compact block of given shards plus a few isolated outliers at extreme / aligned positions
+            // (8: block at the low end of originals ++ recovery, 9: block at the high end)
+            8 | 9 => {
+                let total = k + r;
+                let mut given = vec![false; total];
+                let mut ng = 0usize;
+                // outliers: last recovery, last original, first recovery, neighbours of powers of two
+                let mut cand: Vec<usize> = vec![total - 1, k - 1, k, 0];
+                for a in [6u32, 8, 10, 11, 12, 13, 14] {
+                    let p = 1usize << a;
+                    for d in [p - 1, p, p + 1] {
+                        if d < r {
+                            cand.push(k + d);
+                        }
+                        if d < k {
+                            cand.push(d);
+                        }
+                    }
+                }
+                let n_out = (1 + rng.below(3)).min(n.saturating_sub(1));
+                // the far end first, then seeded picks
+                let mut outs = vec![if self.pattern == 8 { total - 1 } else { 0 }];
+                while outs.len() < n_out {
+                    outs.push(cand[rng.below(cand.len())]);
+                }
+                for &o in &outs {
+                    if !given[o] && ng < n {
+                        given[o] = true;
+                        ng += 1;
+                    }
+                }
+                // compact block: skip a few originals so that something has to be restored
+                let skip = (1 + rng.below(8)).min(k).min(r);
+                let order: Vec<usize> = if self.pattern == 8 { (skip.min(total - 1)..total).chain(0..skip).collect() } else { (0..total - skip.min(total - 1)).rev().chain(total - skip..total).collect() };
+                for i in order {
+                    if ng >= n {
+                        break;
+                    }
+                    if !given[i] {
+                        given[i] = true;
+                        ng += 1;
+                    }
+                }
+                for i in 0..k {
+                    lost_orig[i] = !given[i];
+                }
+                for i in 0..r {
+                    lost_rec[i] = !given[k + i];
+                }
+            }
             // tail of the originals, then tail of recovery
             _ => {
                 let lo = lost.min(k);
@@ -582,9 +634,24 @@ pub fn count_class(k: usize, r: usize) -> &'static str {
     }
 }
 
+/// very few, very long shards: 64 KiB .. 4 MiB, log-uniform, any residue
+pub fn long_shard_cfg() -> BoxedStrategy<Cfg> {
+    (1usize..=3, 1usize..=3, 64u32..=88, 0usize..4096)
+        .prop_map(|(k, r, q, jitter)| {
+            let bytes = 2f64.powf(q as f64 / 4.0) as usize; // 2^16 .. 2^22
+            Cfg { k, r, b: (bytes + jitter * 2) / 2 * 2 }
+        })
+        .boxed()
+}
+
 pub fn round_of_kind(kind: Kind, max_medium: usize) -> BoxedStrategy<Round> {
-    (cfg(kind, max_medium), engine_for(kind), data_spec(), recv_spec())
-        .prop_map(move |((cfg, _), eng, data, recv)| Round {
+    let cfgs = if max_medium >= 1000 {
+        prop_oneof![120 => cfg(kind, max_medium).prop_map(|(c, _)| c), 1 => long_shard_cfg()].boxed()
+    } else {
+        cfg(kind, max_medium).prop_map(|(c, _)| c).boxed()
+    };
+    (cfgs, engine_for(kind), data_spec(), recv_spec())
+        .prop_map(move |(cfg, eng, data, recv)| Round {
             kind,
             eng,
             cfg,
